@@ -7,6 +7,7 @@ import (
 	"crypto/rand"
 	"fmt"
 	"math/big"
+	"reflect"
 	"sync"
 
 	"github.com/consensys/gnark-crypto/ecc"
@@ -34,6 +35,7 @@ func init() {
 		"c06corpus":   c06Corpus,
 		"c03replay":   c03Replay,
 		"c20replay":   c20Replay,
+		"c09replay":   c09Replay,
 	}})
 }
 
@@ -193,6 +195,8 @@ func fullWitnessAny(assign any) (witness.Witness, error) {
 func backendSolverOpts(opts []solver.Option) []backend.ProverOption {
 	return []backend.ProverOption{backend.WithSolverOptions(opts...)}
 }
+
+func frontendLeafType() reflect.Type { return reflect.TypeOf((*frontend.Variable)(nil)).Elem() }
 
 func pubWitness(assign frontend.Circuit) (witness.Witness, error) {
 	return frontend.NewWitness(assign, field(), frontend.PublicOnly())
